@@ -708,6 +708,34 @@ static void exec_line(char *line, FILE *o)
 			OPENSSL_free(priv);
 			OPENSSL_free(pub);
 			EC_KEY_free(k);
+		} else if (strcmp(tok[0], "keyforms") == 0 && ntok == 2) {
+			/* other valid RFC 5915 encodings of the same private key: without the optional public key, and with the
+			 * public point in compressed form */
+			size_t kl;
+			uint8_t *key = unhex(tok[1], &kl);
+			EC_KEY *k = key ? load_priv(key, kl) : NULL;
+
+			if (!k) {
+				fputs("bad-op" "\n", o);
+			} else {
+				unsigned char *a = NULL, *b = NULL;
+				int al, bl;
+
+				EC_KEY_set_enc_flags(k, EC_KEY_get_enc_flags(k) | EC_PKEY_NO_PUBKEY);
+				al = i2d_ECPrivateKey(k, &a);
+				EC_KEY_set_enc_flags(k, EC_KEY_get_enc_flags(k) & ~EC_PKEY_NO_PUBKEY);
+				EC_KEY_set_conv_form(k, POINT_CONVERSION_COMPRESSED);
+				bl = i2d_ECPrivateKey(k, &b);
+				fprintf(o, "forms ");
+				puthex(o, a, al > 0 ? (size_t)al : 0);
+				fprintf(o, " ");
+				puthex(o, b, bl > 0 ? (size_t)bl : 0);
+				fprintf(o, "\n");
+				OPENSSL_free(a);
+				OPENSSL_free(b);
+				EC_KEY_free(k);
+			}
+			free(key);
 		} else if (strcmp(tok[0], "sign") == 0 && ntok == 3) {
 			size_t kl, ml;
 			uint8_t *key = unhex(tok[1], &kl), *msg = unhex(tok[2], &ml);
